@@ -30,6 +30,8 @@ func (P) ID() string { return "C14" }
 //           c<id>      cache soundness of deployment id: "ok" iff every cached entry equals the answer of
 //                      a fresh instance for that node (only emitted on histories inside the hypotheses)
 //           w<bit>@<n> thresholdState with the unknown-rules bit checker            -> 0..4
+//           g@<n>      does validation of block n enforce BIP68 (calcSequenceLock, gated on
+//                      deploymentState(n.parent, DeploymentCSV = id 2) == Active)?  -> 0/1   (n >= 0)
 //         n = -1 is "no block yet" (nil tip). All queries of a line run on ONE chain instance, in order.
 
 type dep struct {
@@ -179,6 +181,19 @@ func (P) Exec(line string) string {
 		case 'w':
 			st, err := c.WarningStateAt(int(node), uint32(arg))
 			out = append(out, stStr(st, err))
+		case 'g':
+			if node < 0 {
+				return "bad-op"
+			}
+			on, err := c.SequenceLocksEnforcedAt(int(node))
+			switch {
+			case err != nil:
+				out = append(out, "err")
+			case on:
+				out = append(out, "1")
+			default:
+				out = append(out, "0")
+			}
 		case 'c':
 			// cache soundness, independent of the caching policy: every entry of deployment arg's
 			// cache must equal what a fresh instance answers for that node (entries hold the plain
